@@ -20,7 +20,9 @@ import (
 type prop struct{ fragx.Engine }
 
 func (p *prop) Rule() string {
-	return "pairs of fragments a/b (replicas): 8-20 writes drawn from all write paths (setbit, clearbit, setrow, clearrow, import set/clear, " +
+	return "pairs of fragments a/b (replicas) of kind set (1/2), mutex (1/3: rows from {0,1,5,99,100,101,205}, always >= 2 blocks; writes setbit+handleMutex, clearbit, " +
+		"bulkImportMutex batches of 1-4 pairs that move columns between rows of different blocks, clear imports, clearrow, snapshot, reopen, invalidate) or bool (1/6); " +
+		"for set fragments: 8-20 writes drawn from all write paths (setbit, clearbit, setrow, clearrow, import set/clear, " +
 		"importvalue small and large path (MaxOpN 1..8 forces the large path), importroaring set/clear, setvalue, clearvalue, snapshot, invalidate), " +
 		"each applied to both replicas (60%) or to one; rows from {0,1,2,99,100,101,199,200} so that blocks 0,1,2 and their edges are hit; " +
 		"after every write one of blocks a / blocks b / cmpblocks / blockdata; a case is non-trivial when a checksum was requested " +
@@ -28,11 +30,15 @@ func (p *prop) Rule() string {
 }
 
 var rowPool = []uint64{0, 1, 2, 99, 100, 101, 199, 200}
+
+// mutex fragments: few rows, always from at least two different 100-row blocks
+var mutexRowPool = []uint64{0, 1, 5, 99, 100, 101, 205}
 var colPool = []uint64{0, 1, 65535, 65536, fragx.SW - 1}
 
 type universe struct {
 	rows, cols []uint64
 	depth      int
+	kind       string // set | mutex | bool
 }
 
 func pickSome(r *vh.Rng, pool []uint64, n int) []uint64 {
@@ -44,7 +50,36 @@ func pickSome(r *vh.Rng, pool []uint64, n int) []uint64 {
 	return out
 }
 
-func (u *universe) row(r *vh.Rng) uint64 { return u.rows[r.Intn(len(u.rows))] }
+func (u *universe) row(r *vh.Rng) uint64 {
+	if u.kind == "bool" {
+		return uint64(r.Intn(2))
+	}
+	return u.rows[r.Intn(len(u.rows))]
+}
+
+// mutexWrite: the write paths that reach a mutex / bool fragment. Import batches name 1-4
+// (row, column) pairs over <= 3 columns and rows of >= 2 blocks, so a batch regularly moves a
+// column out of a row it does not name, into a row of another block.
+func (u *universe) mutexWrite(r *vh.Rng) (string, string) {
+	switch r.Intn(12) {
+	case 0, 1:
+		return fmt.Sprintf("setbit %%s %d %d", u.row(r), u.col(r)), "setbit-mutex"
+	case 2:
+		return fmt.Sprintf("clearbit %%s %d %d", u.row(r), u.col(r)), "clearbit"
+	case 3, 4, 5, 6:
+		return "import %s 0 " + u.pairs(r, 4), "import-mutex"
+	case 7:
+		return "import %s 1 " + u.pairs(r, 3), "import-clear"
+	case 8:
+		return fmt.Sprintf("clearrow %%s %d", u.row(r)), "clearrow"
+	case 9:
+		return "snapshot %s", "snapshot"
+	case 10:
+		return "reopen %s", "reopen"
+	default:
+		return "invalidate %s", "invalidate"
+	}
+}
 func (u *universe) col(r *vh.Rng) uint64 { return u.cols[r.Intn(len(u.cols))] }
 
 func (u *universe) pairs(r *vh.Rng, max int) string {
@@ -78,8 +113,13 @@ func (u *universe) subset(r *vh.Rng) string {
 
 // write returns the operation with a %s placeholder for the fragment id, and its path name.
 func (u *universe) write(r *vh.Rng) (string, string) {
+	if u.kind != "set" {
+		return u.mutexWrite(r)
+	}
 	lim := 1<<uint(u.depth) - 1
-	switch r.Intn(14) {
+	switch r.Intn(15) {
+	case 14:
+		return "reopen %s", "reopen"
 	case 0:
 		return fmt.Sprintf("setbit %%s %d %d", u.row(r), u.col(r)), "setbit"
 	case 1:
@@ -115,12 +155,25 @@ func (p *prop) Gen(r *vh.Rng, tier string, n int) []vh.Case {
 	var cases []vh.Case
 	for k := 0; k < n; k++ {
 		cr := r.Fork()
-		u := &universe{rows: pickSome(cr, rowPool, cr.Range(2, 4)), cols: pickSome(cr, colPool, cr.Range(1, 3)), depth: cr.Range(1, 3)}
+		u := &universe{rows: pickSome(cr, rowPool, cr.Range(2, 4)), cols: pickSome(cr, colPool, cr.Range(1, 3)), depth: cr.Range(1, 3),
+			kind: cr.PickS("set", "set", "set", "mutex", "mutex", "bool")}
+		if u.kind == "mutex" {
+			for {
+				u.rows = pickSome(cr, mutexRowPool, cr.Range(2, 4))
+				blocks := map[uint64]bool{}
+				for _, row := range u.rows {
+					blocks[row/100] = true
+				}
+				if len(blocks) >= 2 {
+					break
+				}
+			}
+		}
 		cache := cr.PickS("ranked", "lru", "none")
 		shard := cr.Pick(0, 0, 1)
 		lines := []string{
-			fmt.Sprintf("open a set %d %s %d 0", shard, cache, cr.Pick(0, 0, 1, 2, 4, 8)),
-			fmt.Sprintf("open b set %d %s %d 0", shard, cache, cr.Pick(0, 0, 1, 2, 4, 8)),
+			fmt.Sprintf("open a %s %d %s %d 0", u.kind, shard, cache, cr.Pick(0, 0, 1, 2, 4, 8)),
+			fmt.Sprintf("open b %s %d %s %d 0", u.kind, shard, cache, cr.Pick(0, 0, 1, 2, 4, 8)),
 		}
 		paths := map[string]bool{}
 		steps := cr.Range(8, 20)
